@@ -1332,7 +1332,7 @@ class TTNS(TTNBase):
         -------
         The new TTNS.
         """
-        if not np.allclose(self.coeff, other.coeff):
+        if self.coeff != other.coeff:
             # fold the different prefactors into the tensors first (as Mps.add does)
             ttns1 = self.scale(self.coeff)
             ttns1.coeff = 1
